@@ -1,5 +1,5 @@
 """C03 - errors are reported iff the call failed; results are finite (inline contract monitor)."""
-from .. import sweeprun, common
+from .. import sweeprun, common, failrun
 
 KINDS = {'zero-without-error', 'nonfinite-without-error', 'error-with-value', 'slot-dependent-result',
          'error-set-twice', 'stderr-output', 'bad-error-code', 'empty-message', 'unprintable-message',
@@ -29,6 +29,9 @@ def main(tier):
             continue
         key = 'c03:%s:%s' % (kind, fn) + (':' + msg if kind in ('error-set-twice', 'stderr-output', 'error-with-value') and msg else '')
         ck.violation(key, '%s in %s (%d calls)' % (kind, fn, v['count']), dict(call=v['witness'], config=v['config'], count=v['count']))
+    # allocation failpoints: a call that notices a failed allocation (returns its failure sentinel) must store an error like any other failure
+    fr = failrun.run('shipped')
+    failrun.report(ck, fr, 'C03')
     if tot['calls'] < 100000 or len(fns) < 100:
         raise common.Inconclusive('sweep observed too little: %r calls over %d functions' % (tot['calls'], len(fns)))
     ok_fns = sum(1 for f in fns.values() if f['ok'] > 0)
@@ -39,7 +42,7 @@ def main(tier):
                     'distinct = (function, error code, normalised message) return paths driven + functions with a success path driven',
                samples=samples, functions=len(fns), functions_with_success=ok_fns, error_paths=len(paths),
                successful_calls=tot['ok'], failing_calls=tot['err'], budget_per_function=budget,
-               configs=['shipped', 'kissel'], flavours=flavours,
+               configs=['shipped', 'kissel'], flavours=flavours, allocation_failpoints=fr['summary'],
                per_function={k: v for k, v in sorted(fns.items())})
     return ck.finish(cov, ['inline monitor in harness/mon_sweep.c; result classes (POSITIVE/NONNEG/ANY) from xv/sigtab.py',
                            'gcc, glibc'])
